@@ -657,7 +657,7 @@ pub fn check(property: &str, tier: &str, base_seed: u64, workers: usize, runs_ov
     let mut value_modules = 0usize;
     let mut value_wall = 0.0f64;
     if property == "C06" && runs_override.map(|r| r >= 100).unwrap_or(true) {
-        let vstage = Stage { name: "values", focus: Focus::Defaults, faults: false, runs: if tier == "thorough" { 1200 } else { 120 }, stream: 43 };
+        let vstage = Stage { name: "values", focus: Focus::Defaults, faults: false, runs: if tier == "thorough" { 2000 } else { 200 }, stream: 43 };
         let n = vstage.runs;
         match value_stage(base_seed, &vstage, workers) {
             Ok((found, n_mod, counts, wall)) => {
@@ -1174,6 +1174,11 @@ pub fn run_value_crate(tag: &str, modules: &[(u64, String, Vec<exec::ValueProbe>
                             "    crate::emit({idx}, {k}, std::panic::catch_unwind(|| {{ let v: m::{ty} = serde_json::from_str(r####\"{text}\"####).map_err(|e| e.to_string())?; Ok(serde_json::to_string(&v).unwrap()) }}));\n"
                         ));
                     }
+                    None if pr.kind == "builder-defaults" => {
+                        p.push_str(&format!(
+                            "    crate::emit({idx}, {k}, std::panic::catch_unwind(|| {{ let v: m::{ty} = m::{ty}::builder().try_into().map_err(|e: m::error::ConversionError| e.to_string())?; Ok(serde_json::to_string(&v).unwrap()) }}));\n"
+                        ));
+                    }
                     None => {
                         p.push_str(&format!(
                             "    crate::emit({idx}, {k}, std::panic::catch_unwind(|| {{ let v: m::{ty} = Default::default(); Ok(serde_json::to_string(&v).unwrap()) }}));\n"
@@ -1301,13 +1306,15 @@ pub fn judge_value_probes(idx: u64, probes: &[exec::ValueProbe], answers: &BTree
                     } else {
                         out.push(Violation {
                             invariant: "I12".into(),
-                            key: format!("default-value-differs:{}|{class}", pr.kind),
+                            // `absent`: the member is not there at all (the default was not
+                            // honoured as a serde default); `wrong`: another value is
+                            key: format!("default-value-differs:{}:{}|{class}", pr.kind, if actual.is_none() { "absent" } else { "wrong" }),
                             step: 0,
                             observed: format!(
                                 "{} ({}): {} is {} in the compiled output, the schema's default is {}",
                                 pr.type_name,
                                 pr.site,
-                                if member.is_empty() { "<T as Default>::default()".to_string() } else { format!("member `{member}` of a value deserialised without it") },
+                                if member.is_empty() { "<T as Default>::default()".to_string() } else if pr.kind == "builder-defaults" { format!("member `{member}` of `T::builder().try_into()`") } else { format!("member `{member}` of a value deserialised without it") },
                                 actual.map(|a| a.to_string()).unwrap_or_else(|| "absent".into()),
                                 d
                             ),
@@ -1330,7 +1337,11 @@ pub fn applicable_probes(output: &str, probes: &[exec::ValueProbe]) -> Vec<exec:
             let n = &p.type_name;
             let defined = output.contains(&format!("pub struct {n} ")) || output.contains(&format!("pub enum {n} ")) || output.contains(&format!("pub struct {n}("));
             let has_default = output.contains(&format!("Default for {n} {{"));
-            defined && n.chars().all(|c| c.is_ascii_alphanumeric() || c == '_') && (p.kind != "type-default" || has_default)
+            let has_builder = output.contains("pub mod builder {");
+            defined
+                && n.chars().all(|c| c.is_ascii_alphanumeric() || c == '_')
+                && (p.kind != "type-default" || has_default)
+                && (p.kind != "builder-defaults" || has_builder)
         })
         .cloned()
         .collect()
